@@ -1,7 +1,7 @@
 (* C01 — paragraphs sit at depth 4 in every view, for every document.
    Statements only; proofs in proofs/ShapeFacts.v. *)
 From Coq Require Import List Arith.
-From D2P Require Import Str Err Xml Merge Collector Walk ShapeFacts.
+From D2P Require Import Str Err Xml Merge Collector Walk Iter Output Paths Package Content ShapeFacts ViewFacts PkgShape.
 Import ListNotations.
 
 (* for EVERY element tree (any nesting of paragraphs, tables, wrappers,
@@ -31,3 +31,41 @@ Theorem C01_elem_depth_range : forall t d,
   elem_depth t = Some d -> (1 <= d <= 4)%nat.
 Proof. exact elem_depth_range. Qed.
 Print Assumptions C01_elem_depth_range.
+
+(* PACKAGE LEVEL: for every archive, every option combination and each of
+   header, officeDocument (body), footer, footnotes, endnotes: the *_pars value
+   is nested exactly four deep with paragraph records as leaves ... *)
+Theorem C01_pars_depth : forall a o ty p, pars_of a o ty = Ok p -> deep 4 p.
+Proof. exact pars_of_deep. Qed.
+Print Assumptions C01_pars_depth.
+
+(* ... the *_runs value exactly five deep with string leaves ... *)
+Theorem C01_runs_depth : forall a o ty r, runs_of a o ty = Ok r -> deep 5 r.
+Proof. exact runs_of_deep. Qed.
+Print Assumptions C01_runs_depth.
+
+(* ... and the plain value exactly four deep with string leaves *)
+Theorem C01_plain_depth : forall a o ty t, plain_of a o ty = Ok t -> deep 4 t.
+Proof. exact plain_of_deep. Qed.
+Print Assumptions C01_plain_depth.
+
+(* the three forms of one attribute have the same nesting shape: an index
+   address valid in one is valid in the others *)
+Theorem C01_forms_same_shape : forall a o ty p r t,
+  pars_of a o ty = Ok p -> runs_of a o ty = Ok r -> plain_of a o ty = Ok t ->
+  forall addr, (length addr < 4)%nat ->
+    option_map rlen' (index p addr) = option_map rlen' (index r addr)
+    /\ option_map rlen' (index r addr) = option_map rlen' (index t addr).
+Proof. exact attribute_forms_same_shape. Qed.
+Print Assumptions C01_forms_same_shape.
+
+(* document, document_runs, document_pars likewise *)
+Theorem C01_document_pars_depth : forall a o z, document_pars a o = Ok z -> deep 4 z.
+Proof. exact document_pars_deep. Qed.
+Print Assumptions C01_document_pars_depth.
+Theorem C01_document_runs_depth : forall a o z, document_runs a o = Ok z -> deep 5 z.
+Proof. exact document_runs_deep. Qed.
+Print Assumptions C01_document_runs_depth.
+Theorem C01_document_depth : forall a o z, document a o = Ok z -> deep 4 z.
+Proof. exact document_deep. Qed.
+Print Assumptions C01_document_depth.
